@@ -61,7 +61,7 @@ static void handler(const Line& t, Out& o) {
     src.scripted.push_front(0);
     put_sorted(s.get_result(), o);
     break; }
-  case 5: { // iterate in several styles under the SAME draw; all must give the same sequence
+  case 5: { // iterate in seven styles under the SAME draw; all must give the same sequence
     sk_t& s = get(t.at(1));
     o.R(vh::dbits(s.get_c()));
     // the draw the first begin() is going to take is fixed in advance, so that a second begin() can be given the same one
@@ -73,7 +73,10 @@ static void handler(const Line& t, Out& o) {
       std::vector<int64_t> w;
       { auto it = b0; for (; it != e; ++it) w.push_back(*it); }          // a COPY of the iterator, pre-increment
       walks.push_back(w); w.clear();
-      // (no post-increment walk: const_iterator::operator++(int) returns a reference to its local copy -- UBSan stops at the call)
+      { auto it = b0; for (; it != e; it++) w.push_back(*it); }          // a copy, post-increment, result unused
+      walks.push_back(w); w.clear();
+      { auto it = b0; while (it != e) w.push_back(*it++); }                // a copy, read through the value of it++
+      walks.push_back(w); w.clear();
       walks.push_back(std::vector<int64_t>(b0, e));                       // built by the library from copies
       { typedef decltype(s.begin()) it_t; it_t it(b0); std::vector<it_t> held(1, it);  // a copy stored in a container
         for (auto& h = held[0]; h != e; ++h) w.push_back(*h); }
